@@ -216,6 +216,47 @@ pub enum Expr {
     Var(String),
     Un(UnOp, Box<Expr>),
     Bin(BinOp, Box<Expr>, Box<Expr>),
+    /// stage S4: call of a user FUNCTION
+    Call(String, Vec<Arg>),
+}
+
+/// One call argument: optional formal name, `=>` (true) or `:=`/positional (false), expression.
+#[derive(Clone, Debug)]
+pub struct Arg {
+    pub name: Option<String>,
+    pub arrow: bool,
+    pub e: Expr,
+}
+
+#[derive(Clone, Copy, Debug, PartialEq, Eq)]
+pub enum Dir {
+    In,
+    Out,
+    InOut,
+}
+
+#[derive(Clone, Debug)]
+pub struct Param {
+    pub name: String,
+    pub ty: Ty,
+    pub dir: Dir,
+    pub default: Option<Expr>,
+}
+
+#[derive(Clone, Debug)]
+pub struct Local {
+    pub name: String,
+    pub ty: Ty,
+    pub init: Option<Expr>,
+}
+
+#[derive(Clone, Debug)]
+pub struct FuncDef {
+    pub name: String,
+    pub ret: Ty,
+    pub params: Vec<Param>,
+    pub locals: Vec<Local>,
+    pub body: Vec<Stmt>,
 }
 
 #[derive(Clone, Debug)]
@@ -241,6 +282,9 @@ pub enum Stmt {
     Exit,
     Continue,
     Return,
+    /// stage S4: `RETURN expr;` (in a FUNCTION) and a call as a statement
+    ReturnVal(Expr),
+    ExprStmt(Expr),
 }
 
 #[derive(Clone, Debug)]
@@ -254,6 +298,7 @@ pub struct VarDecl {
 
 #[derive(Clone, Debug)]
 pub struct Program {
+    pub funcs: Vec<FuncDef>,
     pub decls: Vec<VarDecl>,
     pub body: Vec<Stmt>,
 }
@@ -292,6 +337,16 @@ pub fn expr_src(e: &Expr, min: u8) -> String {
             } else {
                 text
             }
+        }
+        Expr::Call(f, args) => {
+            let parts: Vec<String> = args
+                .iter()
+                .map(|a| match &a.name {
+                    Some(n) => format!("{n} {} {}", if a.arrow { "=>" } else { ":=" }, expr_src(&a.e, 0)),
+                    None => expr_src(&a.e, 0),
+                })
+                .collect();
+            format!("{f}({})", parts.join(", "))
         }
         Expr::Bin(op, l, r) => {
             let p = op.prec();
@@ -386,11 +441,53 @@ fn stmt_src(out: &mut String, s: &Stmt, ind: usize) {
         Stmt::Return => {
             let _ = writeln!(out, "{pad}RETURN;");
         }
+        Stmt::ReturnVal(e) => {
+            let _ = writeln!(out, "{pad}RETURN {};", expr_src(e, 0));
+        }
+        Stmt::ExprStmt(e) => {
+            let _ = writeln!(out, "{pad}{};", expr_src(e, 0));
+        }
     }
 }
 
+fn init_src(e: &Option<Expr>) -> String {
+    match e {
+        Some(e) => format!(" := {}", expr_src(e, 0)),
+        None => String::new(),
+    }
+}
+
+fn func_src(f: &FuncDef) -> String {
+    let mut s = format!("FUNCTION {} : {}\n", f.name, f.ret.name());
+    for (dir, kw) in [(Dir::In, "VAR_INPUT"), (Dir::Out, "VAR_OUTPUT"), (Dir::InOut, "VAR_IN_OUT")] {
+        let ps: Vec<&Param> = f.params.iter().filter(|p| p.dir == dir).collect();
+        if ps.is_empty() {
+            continue;
+        }
+        let _ = writeln!(s, "{kw}");
+        for p in ps {
+            let _ = writeln!(s, "  {} : {}{};", p.name, p.ty.name(), init_src(&p.default));
+        }
+        s.push_str("END_VAR\n");
+    }
+    if !f.locals.is_empty() {
+        s.push_str("VAR\n");
+        for l in &f.locals {
+            let _ = writeln!(s, "  {} : {}{};", l.name, l.ty.name(), init_src(&l.init));
+        }
+        s.push_str("END_VAR\n");
+    }
+    block_src(&mut s, &f.body, 0);
+    s.push_str("END_FUNCTION\n\n");
+    s
+}
+
 pub fn program_src(p: &Program) -> String {
-    let mut s = String::from("PROGRAM P\nVAR\n");
+    let mut s = String::new();
+    for f in &p.funcs {
+        s.push_str(&func_src(f));
+    }
+    s.push_str("PROGRAM P\nVAR\n");
     for d in &p.decls {
         if d.has_init {
             let init = match d.ty {
@@ -435,7 +532,48 @@ pub fn expr_sx(e: &Expr) -> String {
             expr_sx(inner)
         ),
         Expr::Bin(op, l, r) => format!("( b {} {} {} )", op.word(), expr_sx(l), expr_sx(r)),
+        Expr::Call(f, args) => {
+            let mut a = String::from("(");
+            for x in args {
+                let _ = write!(
+                    a,
+                    " ( {} {} {} )",
+                    x.name.as_deref().unwrap_or("-"),
+                    if x.arrow { 1 } else { 0 },
+                    expr_sx(&x.e)
+                );
+            }
+            a.push_str(" )");
+            format!("( c {f} {a} )")
+        }
     }
+}
+
+fn opt_expr_sx(e: &Option<Expr>) -> String {
+    match e {
+        Some(e) => expr_sx(e),
+        None => "-".into(),
+    }
+}
+
+/// `func <name> <RET> ( ( pname TYPE dir default )* ) ( ( lname TYPE init )* ) <body>`
+pub fn func_sx(f: &FuncDef) -> String {
+    let mut ps = String::from("(");
+    for p in &f.params {
+        let dir = match p.dir {
+            Dir::In => "in",
+            Dir::Out => "out",
+            Dir::InOut => "inout",
+        };
+        let _ = write!(ps, " ( {} {} {dir} {} )", p.name, p.ty.name(), opt_expr_sx(&p.default));
+    }
+    ps.push_str(" )");
+    let mut ls = String::from("(");
+    for l in &f.locals {
+        let _ = write!(ls, " ( {} {} {} )", l.name, l.ty.name(), opt_expr_sx(&l.init));
+    }
+    ls.push_str(" )");
+    format!("func {} {} {ps} {ls} {}", f.name, f.ret.name(), block_sx(&f.body))
 }
 
 fn lab_sx(l: &Label) -> String {
@@ -490,6 +628,8 @@ fn stmt_sx(s: &Stmt) -> String {
         Stmt::Exit => "( exit )".into(),
         Stmt::Continue => "( cont )".into(),
         Stmt::Return => "( ret )".into(),
+        Stmt::ReturnVal(e) => format!("( retv {} )", expr_sx(e)),
+        Stmt::ExprStmt(e) => format!("( expr {} )", expr_sx(e)),
     }
 }
 
@@ -525,6 +665,12 @@ pub struct Gen<'a> {
     /// variables that must not be assigned here (FOR control / simple bounds of enclosing loops)
     restricted: Vec<String>,
     stmt_budget: i32,
+    /// stage S4: FUNCTIONs that may be called from here, and variables that may only be read
+    /// (VAR_INPUT parameters inside a function body)
+    funcs: Vec<FuncDef>,
+    readonly: Vec<String>,
+    /// inside a FUNCTION body: its return type (a bare `RETURN;` is rejected there)
+    func_ret: Option<Ty>,
 }
 
 fn boundary(rng: &mut Rng, k: IKind) -> i128 {
@@ -566,6 +712,9 @@ impl<'a> Gen<'a> {
             sabotaged: None,
             restricted: Vec::new(),
             stmt_budget: 0,
+            funcs: Vec::new(),
+            readonly: Vec::new(),
+            func_ret: None,
         }
     }
 
@@ -747,6 +896,9 @@ impl<'a> Gen<'a> {
         if self.sab("expr-bool-for-int") {
             return self.gen_bool(0);
         }
+        if let Some(c) = self.maybe_call(Ty::Int(k)) {
+            return c;
+        }
         let exact = self.int_vars(&[k]);
         if depth == 0 || self.rng.chance(1, 4) {
             if !exact.is_empty() && self.rng.chance(3, 4) {
@@ -806,6 +958,9 @@ impl<'a> Gen<'a> {
         if self.sab("expr-int-for-bool") {
             return Expr::Lit(None, 1);
         }
+        if let Some(c) = self.maybe_call(Ty::Bool) {
+            return c;
+        }
         let bvars = self.bool_vars();
         if depth == 0 || self.rng.chance(1, 5) {
             if !bvars.is_empty() && self.rng.chance(3, 4) {
@@ -863,7 +1018,7 @@ impl<'a> Gen<'a> {
     fn assignable_vars(&self) -> Vec<String> {
         self.vars_of(|_| true)
             .into_iter()
-            .filter(|n| !self.restricted.contains(n))
+            .filter(|n| !self.restricted.contains(n) && !self.readonly.contains(n))
             .collect()
     }
 
@@ -945,6 +1100,9 @@ impl<'a> Gen<'a> {
     /// Strict profile: static type = dynamic tag = `k` at every node, no untyped literal next to
     /// SINT/INT, no bare literal unless the target is DINT.
     fn gen_strict_int(&mut self, k: IKind, depth: u32) -> Expr {
+        if let Some(c) = self.maybe_call(Ty::Int(k)) {
+            return c;
+        }
         let exact = self.int_vars(&[k]);
         if depth == 0 || self.rng.chance(1, 4) {
             if !exact.is_empty() && self.rng.chance(3, 4) {
@@ -1078,6 +1236,152 @@ impl<'a> Gen<'a> {
         })
     }
 
+    // ---- stage S4: calls --------------------------------------------------------------------
+
+    fn maybe_call(&mut self, ty: Ty) -> Option<Expr> {
+        if self.funcs.is_empty() || !self.rng.chance(1, 5) {
+            return None;
+        }
+        let idx: Vec<usize> = (0..self.funcs.len()).filter(|i| self.funcs[*i].ret == ty).collect();
+        if idx.is_empty() {
+            return None;
+        }
+        let fi = *self.rng.pick(&idx);
+        self.gen_call(fi)
+    }
+
+    /// A variable that can be bound to an OUT / IN_OUT parameter of type `ty`.
+    fn bindable_var(&mut self, ty: Ty, exact: bool, used: &[String]) -> Option<String> {
+        let cands: Vec<String> = self
+            .decls
+            .iter()
+            .filter(|d| !d.name.starts_with('g'))
+            .filter(|d| {
+                if exact || self.profile == Profile::Strict {
+                    d.ty == ty
+                } else {
+                    match (d.ty, ty) {
+                        (Ty::Bool, Ty::Bool) => true,
+                        (Ty::Int(v), Ty::Int(p)) => v.signed() == p.signed() && v.rank() >= p.rank(),
+                        _ => false,
+                    }
+                }
+            })
+            .map(|d| d.name.clone())
+            .filter(|n| !self.restricted.contains(n) && !self.readonly.contains(n) && !used.contains(n))
+            .collect();
+        if cands.is_empty() {
+            None
+        } else {
+            Some(self.rng.pick(&cands).clone())
+        }
+    }
+
+    fn arg_value(&mut self, ty: Ty) -> Expr {
+        // no call inside a call argument: the real checker mis-reads `F(G(x := 1), 2)` as a formal
+        // call of F ("formal call arguments must be named") — a false rejection, steered around
+        let saved = std::mem::take(&mut self.funcs);
+        let e = self.arg_value_inner(ty);
+        self.funcs = saved;
+        e
+    }
+
+    fn arg_value_inner(&mut self, ty: Ty) -> Expr {
+        if self.sab("call-wrong-family") {
+            return match ty {
+                Ty::Bool => Expr::Lit(None, 1),
+                Ty::Int(_) => Expr::BLit(true),
+            };
+        }
+        match ty {
+            Ty::Bool => self.cond(1),
+            Ty::Int(k) => {
+                if self.profile != Profile::Strict && self.rng.chance(1, 4) {
+                    // bare literal (contextual)
+                    Expr::Lit(None, self.rng.range(0, 60) as i128)
+                } else {
+                    self.int_expr(k, 1)
+                }
+            }
+        }
+    }
+
+    fn gen_call(&mut self, fi: usize) -> Option<Expr> {
+        let f = self.funcs[fi].clone();
+        let mut named = self.rng.chance(3, 5);
+        let mut args: Vec<Arg> = Vec::new();
+        let mut used: Vec<String> = Vec::new();
+        // first pass: can every mandatory binding be satisfied?
+        let mut plan: Vec<Option<Expr>> = Vec::new();
+        for p in &f.params {
+            match p.dir {
+                Dir::In => plan.push(None),
+                Dir::Out => {
+                    let v = self.bindable_var(p.ty, false, &used);
+                    if let Some(v) = &v {
+                        used.push(v.clone());
+                    } else {
+                        named = true; // cannot be positional without a target
+                    }
+                    plan.push(v.map(Expr::Var));
+                }
+                Dir::InOut => {
+                    let v = self.bindable_var(p.ty, true, &used)?;
+                    used.push(v.clone());
+                    plan.push(Some(Expr::Var(v)));
+                }
+            }
+        }
+        let missing_inout = named && self.sab("call-missing-inout");
+        let arrow_mismatch = named && self.sab("call-arrow-mismatch");
+        for (p, planned) in f.params.iter().zip(plan.into_iter()) {
+            let pname = if named { Some(p.name.clone()) } else { None };
+            match p.dir {
+                Dir::In => {
+                    if named && self.rng.chance(1, 4) {
+                        continue; // omitted input: default
+                    }
+                    let e = self.arg_value(p.ty);
+                    args.push(Arg { name: pname, arrow: false, e });
+                }
+                Dir::Out => {
+                    let Some(mut e) = planned else { continue };
+                    if named && self.rng.chance(1, 3) {
+                        continue; // output not bound
+                    }
+                    if self.sab("call-out-nonvar") {
+                        e = match p.ty {
+                            Ty::Bool => Expr::BLit(false),
+                            Ty::Int(_) => Expr::Lit(None, 3),
+                        };
+                    }
+                    args.push(Arg { name: pname, arrow: named && !arrow_mismatch, e });
+                }
+                Dir::InOut => {
+                    if missing_inout {
+                        continue;
+                    }
+                    let Some(e) = planned else { continue };
+                    args.push(Arg { name: pname, arrow: false, e });
+                }
+            }
+        }
+        if named && args.len() > 1 && self.rng.chance(1, 3) {
+            args.rotate_left(1); // formal arguments in another order than the declaration
+        }
+        if !named && !args.is_empty() && self.sab("call-arg-count") {
+            args.pop();
+        }
+        if named && !args.is_empty() && self.sab("call-unknown-param") {
+            args[0].name = Some("zz".into());
+        }
+        let mut name = f.name.clone();
+        if self.sab("call-undefined-function") {
+            name = "Gx".into();
+        }
+        Some(Expr::Call(name, args))
+    }
+
     fn cond(&mut self, depth: u32) -> Expr {
         if self.sab("cond-int") {
             let ks = self.int_vars(&KINDS);
@@ -1132,6 +1436,13 @@ impl<'a> Gen<'a> {
             out.push(self.gen_assign());
             return;
         }
+        if !self.funcs.is_empty() && self.rng.chance(1, 12) {
+            let fi = self.rng.below(self.funcs.len() as u64) as usize;
+            if let Some(c) = self.gen_call(fi) {
+                out.push(Stmt::ExprStmt(c));
+                return;
+            }
+        }
         let roll = if depth == 0 { self.rng.below(50) } else { self.rng.below(100) };
         match roll {
             0..=49 => out.push(self.gen_assign()),
@@ -1170,7 +1481,12 @@ impl<'a> Gen<'a> {
                     // RETURN in a PROGRAM (docs/specs/06: "early exit"); the runtime reports
                     // InvalidControlFlow — known finding
                     let c = self.cond(1);
-                    out.push(Stmt::If(c, vec![Stmt::Return], Vec::new(), Vec::new()));
+                    let r = match self.func_ret {
+                        None => Stmt::Return,
+                        Some(Ty::Bool) => Stmt::ReturnVal(self.cond(1)),
+                        Some(Ty::Int(k)) => Stmt::ReturnVal(self.int_expr(k, 1)),
+                    };
+                    out.push(Stmt::If(c, vec![r], Vec::new(), Vec::new()));
                 } else {
                     out.push(self.gen_assign());
                 }
@@ -1275,7 +1591,7 @@ impl<'a> Gen<'a> {
         let candidates: Vec<String> = self
             .int_vars(&KINDS)
             .into_iter()
-            .filter(|n| !self.restricted.contains(n))
+            .filter(|n| !self.restricted.contains(n) && !self.readonly.contains(n))
             .collect();
         if candidates.is_empty() {
             out.push(self.gen_assign());
@@ -1420,6 +1736,154 @@ impl<'a> Gen<'a> {
         out.push(Stmt::Repeat(body, cond));
     }
 
+    /// Stage S4: a FUNCTION over the given kinds; may call the functions generated before it.
+    fn gen_function(&mut self, idx: usize, kinds: &[IKind], earlier: &[FuncDef]) -> FuncDef {
+        let name = format!("F{idx}");
+        let pick_ty = |rng: &mut Rng| -> Ty {
+            if rng.chance(1, 7) {
+                Ty::Bool
+            } else {
+                Ty::Int(*rng.pick(kinds))
+            }
+        };
+        let ret = pick_ty(self.rng);
+        let mut params = Vec::new();
+        let lit_for = |rng: &mut Rng, ty: Ty, profile: Profile| -> Expr {
+            match ty {
+                Ty::Bool => Expr::BLit(rng.bool()),
+                Ty::Int(k) => {
+                    let v = small(rng, k);
+                    if profile == Profile::Strict || rng.chance(1, 3) {
+                        Expr::Lit(Some(k), v)
+                    } else if v < 0 {
+                        Expr::Un(UnOp::Neg, Box::new(Expr::Lit(None, -v)))
+                    } else {
+                        Expr::Lit(None, v)
+                    }
+                }
+            }
+        };
+        let nin = 1 + self.rng.below(3) as usize;
+        for i in 0..nin {
+            let ty = pick_ty(self.rng);
+            let default = if self.rng.chance(1, 3) { Some(lit_for(self.rng, ty, self.profile)) } else { None };
+            params.push(Param { name: format!("pa{i}"), ty, dir: Dir::In, default });
+        }
+        if self.rng.chance(1, 2) {
+            params.push(Param { name: "po0".into(), ty: pick_ty(self.rng), dir: Dir::Out, default: None });
+        }
+        if self.rng.chance(2, 5) {
+            params.push(Param { name: "pq0".into(), ty: pick_ty(self.rng), dir: Dir::InOut, default: None });
+        }
+        let mut locals = Vec::new();
+        for i in 0..self.rng.below(3) as usize {
+            let ty = pick_ty(self.rng);
+            let init = if self.rng.chance(1, 2) { Some(lit_for(self.rng, ty, self.profile)) } else { None };
+            locals.push(Local { name: format!("lt{i}"), ty, init });
+        }
+        // body generated by a sub-generator whose scope is the function's own
+        let mut decls: Vec<VarDecl> = Vec::new();
+        let mut readonly = Vec::new();
+        for p in &params {
+            decls.push(VarDecl { name: p.name.clone(), ty: p.ty, init: 0, typed_init: false, has_init: false });
+            if p.dir == Dir::In {
+                readonly.push(p.name.clone());
+            }
+        }
+        for l in &locals {
+            decls.push(VarDecl { name: l.name.clone(), ty: l.ty, init: 0, typed_init: false, has_init: false });
+        }
+        let profile = self.profile;
+        let known = decls.len();
+        let (mut body, extra_locals) = {
+            let mut sub = Gen::new(self.rng, profile, false);
+            sub.decls = decls;
+            sub.readonly = readonly;
+            sub.funcs = earlier.to_vec();
+            sub.func_ret = Some(ret);
+            sub.stmt_budget = 3 + sub.rng.below(6) as i32;
+            let mut body = Vec::new();
+            let top = 1 + sub.rng.below(3);
+            for _ in 0..top {
+                sub.stmt_budget -= 1;
+                sub.gen_stmt(2, false, &mut body);
+            }
+            if sub.rng.chance(1, 4) {
+                // early exit with a value
+                let c = sub.cond(1);
+                let e = match ret {
+                    Ty::Bool => sub.cond(1),
+                    Ty::Int(k) => sub.int_expr(k, 1),
+                };
+                let at = sub.rng.below(body.len() as u64 + 1) as usize;
+                body.insert(at, Stmt::If(c, vec![Stmt::ReturnVal(e)], Vec::new(), Vec::new()));
+            }
+            let fin = match ret {
+                Ty::Bool => sub.cond(2),
+                Ty::Int(k) => sub.int_expr(k, 2),
+            };
+            body.push(Stmt::Assign(name.clone(), fin));
+            let extra: Vec<VarDecl> = sub.decls[known..].to_vec();
+            (body, extra)
+        };
+        for d in extra_locals {
+            locals.push(Local { name: d.name, ty: d.ty, init: None });
+        }
+        if self.sab("func-missing-return") {
+            body.pop();
+            if body.is_empty() {
+                body.push(Stmt::Assign("lt0".into(), Expr::Lit(None, 0)));
+            }
+        }
+        FuncDef { name, ret, params, locals, body }
+    }
+
+    /// Stage S4 program: one to three FUNCTIONs and a PROGRAM body that calls them.
+    pub fn gen_program_s4(mut self) -> (Program, Option<&'static str>) {
+        self.gen_decls();
+        let kinds: Vec<IKind> = {
+            let mut ks: Vec<IKind> = Vec::new();
+            for d in &self.decls {
+                if let Ty::Int(k) = d.ty {
+                    if !ks.contains(&k) {
+                        ks.push(k);
+                    }
+                }
+            }
+            if ks.is_empty() {
+                ks.push(IKind::DInt);
+            }
+            ks
+        };
+        let nf = 1 + self.rng.below(3) as usize;
+        let mut funcs: Vec<FuncDef> = Vec::new();
+        for i in 0..nf {
+            let f = self.gen_function(i, &kinds, &funcs.clone());
+            funcs.push(f);
+        }
+        self.funcs = funcs.clone();
+        self.stmt_budget = 5 + self.rng.below(10) as i32;
+        let mut body = Vec::new();
+        // make sure every function is called at least once
+        for fi in 0..funcs.len() {
+            if let Some(c) = self.gen_call(fi) {
+                let ret = funcs[fi].ret;
+                if let Some(v) = self.bindable_var(ret, false, &[]) {
+                    body.push(Stmt::Assign(v, c));
+                } else {
+                    body.push(Stmt::ExprStmt(c));
+                }
+            }
+        }
+        let top = 2 + self.rng.below(4);
+        for _ in 0..top {
+            self.stmt_budget -= 1;
+            self.gen_stmt(3, false, &mut body);
+        }
+        let sabotaged = self.sabotaged;
+        (Program { funcs, decls: self.decls, body }, sabotaged)
+    }
+
     pub fn gen_program(mut self) -> (Program, Option<&'static str>) {
         self.gen_decls();
         self.stmt_budget = 6 + self.rng.below(14) as i32;
@@ -1430,7 +1894,7 @@ impl<'a> Gen<'a> {
             self.gen_stmt(3, false, &mut body);
         }
         let sabotaged = self.sabotaged;
-        (Program { decls: self.decls, body }, sabotaged)
+        (Program { funcs: Vec::new(), decls: self.decls, body }, sabotaged)
     }
 }
 
@@ -1589,6 +2053,9 @@ pub fn emit_case(out: &mut Out, n: u64, prog: &Program, tags: &str, inputs: Vec<
             if d.typed_init { 1 } else { 0 }
         ));
     }
+    for f in &prog.funcs {
+        out.line(func_sx(f));
+    }
     out.line(format!("body {}", block_sx(&prog.body)));
     out.line(format!("src {}", hex(source.as_bytes())));
     out.line("check");
@@ -1697,6 +2164,7 @@ pub fn witnesses() -> Vec<(&'static str, Program)> {
         (
             "drift-int-literal",
             Program {
+                funcs: Vec::new(),
                 decls: vec![decl("c", int(Int), 32766)],
                 body: vec![asg("c", bin(BinOp::Add, v("c"), lit(1)))],
             },
@@ -1704,6 +2172,7 @@ pub fn witnesses() -> Vec<(&'static str, Program)> {
         (
             "mixed-sign-compare",
             Program {
+                funcs: Vec::new(),
                 decls: vec![decl("i", int(Int), -1), decl("u", int(UInt), 3), decl("b", Ty::Bool, 0)],
                 body: vec![asg("b", bin(BinOp::Lt, v("i"), v("u")))],
             },
@@ -1711,6 +2180,7 @@ pub fn witnesses() -> Vec<(&'static str, Program)> {
         (
             "mixed-sign-arith",
             Program {
+                funcs: Vec::new(),
                 decls: vec![decl("u", int(UInt), 3)],
                 body: vec![asg("u", bin(BinOp::Add, v("u"), lit(-1)))],
             },
@@ -1718,6 +2188,7 @@ pub fn witnesses() -> Vec<(&'static str, Program)> {
         (
             "neg-unsigned",
             Program {
+                funcs: Vec::new(),
                 decls: vec![decl("u", int(UInt), 3), decl("w", int(UInt), 0)],
                 body: vec![asg("w", neg(v("u")))],
             },
@@ -1725,6 +2196,7 @@ pub fn witnesses() -> Vec<(&'static str, Program)> {
         (
             "return-in-program",
             Program {
+                funcs: Vec::new(),
                 decls: vec![decl("x", int(DInt), 0)],
                 body: vec![asg("x", lit(1)), Stmt::Return, asg("x", lit(2))],
             },
@@ -1732,6 +2204,7 @@ pub fn witnesses() -> Vec<(&'static str, Program)> {
         (
             "pow-negative-exponent",
             Program {
+                funcs: Vec::new(),
                 decls: vec![decl("x", int(DInt), 2), decl("y", int(DInt), -1)],
                 body: vec![asg("x", bin(BinOp::Pow, v("x"), v("y")))],
             },
@@ -1739,6 +2212,7 @@ pub fn witnesses() -> Vec<(&'static str, Program)> {
         (
             "for-unsigned-negative-step",
             Program {
+                funcs: Vec::new(),
                 decls: vec![decl("u", int(UInt), 0), decl("n", int(DInt), 0)],
                 body: vec![Stmt::For(
                     "u".into(),
@@ -1752,6 +2226,7 @@ pub fn witnesses() -> Vec<(&'static str, Program)> {
         (
             "for-undeclared-control",
             Program {
+                funcs: Vec::new(),
                 decls: vec![decl("n", int(DInt), 0)],
                 body: vec![Stmt::For(
                     "zz".into(),
@@ -1765,6 +2240,7 @@ pub fn witnesses() -> Vec<(&'static str, Program)> {
         (
             "case-else-unchecked-store",
             Program {
+                funcs: Vec::new(),
                 decls: vec![decl("d", int(DInt), 0)],
                 body: vec![Stmt::Case(
                     v("d"),
@@ -1776,6 +2252,7 @@ pub fn witnesses() -> Vec<(&'static str, Program)> {
         (
             "case-else-unchecked-condition",
             Program {
+                funcs: Vec::new(),
                 decls: vec![decl("d", int(DInt), 0)],
                 body: vec![Stmt::Case(
                     v("d"),
@@ -1787,6 +2264,7 @@ pub fn witnesses() -> Vec<(&'static str, Program)> {
         (
             "for-ulint-cast",
             Program {
+                funcs: Vec::new(),
                 decls: vec![decl("a", int(ULInt), i64::MAX as i128), decl("i", int(ULInt), 0), decl("n", int(DInt), 0)],
                 body: vec![
                     asg("a", bin(BinOp::Add, v("a"), tl(ULInt, 10))),
@@ -1803,13 +2281,55 @@ pub fn witnesses() -> Vec<(&'static str, Program)> {
         (
             "drift-widening-assignment",
             Program {
+                funcs: Vec::new(),
                 decls: vec![decl("d", int(DInt), 0), decl("s", int(SInt), 3)],
                 body: vec![asg("d", v("s"))],
             },
         ),
         (
+            "call-empty-args",
+            Program {
+                funcs: vec![FuncDef {
+                    name: "F0".into(),
+                    ret: int(DInt),
+                    params: vec![Param { name: "pa0".into(), ty: int(DInt), dir: Dir::In, default: Some(lit(5)) }],
+                    locals: vec![],
+                    body: vec![asg("F0", v("pa0"))],
+                }],
+                decls: vec![decl("d", int(DInt), 0)],
+                body: vec![asg("d", Expr::Call("F0".into(), vec![]))],
+            },
+        ),
+        (
+            "drift-output-writeback",
+            Program {
+                funcs: vec![FuncDef {
+                    name: "F0".into(),
+                    ret: int(DInt),
+                    params: vec![
+                        Param { name: "pa0".into(), ty: int(DInt), dir: Dir::In, default: None },
+                        Param { name: "po0".into(), ty: int(DInt), dir: Dir::Out, default: None },
+                    ],
+                    locals: vec![],
+                    body: vec![asg("po0", v("pa0")), asg("F0", v("pa0"))],
+                }],
+                decls: vec![decl("d", int(DInt), 0), decl("l", int(LInt), 0)],
+                body: vec![asg(
+                    "d",
+                    Expr::Call(
+                        "F0".into(),
+                        vec![
+                            Arg { name: Some("pa0".into()), arrow: false, e: tl(DInt, 7) },
+                            Arg { name: Some("po0".into()), arrow: true, e: v("l") },
+                        ],
+                    ),
+                )],
+            },
+        ),
+        (
             "drift-literal-out-of-range",
             Program {
+                funcs: Vec::new(),
                 decls: vec![decl("s", int(SInt), 0), decl("u", int(UInt), 0)],
                 body: vec![asg("s", lit(1000)), asg("u", lit(-5))],
             },
@@ -1832,7 +2352,58 @@ pub fn raw_witnesses() -> Vec<(&'static str, &'static str)> {
             "power-right-associative",
             "PROGRAM P\nVAR\n  x : DINT;\nEND_VAR\nx := 2 ** 3 ** 2;\nEND_PROGRAM\n",
         ),
+        (
+            "named-argument-case",
+            "FUNCTION K : INT\nVAR_INPUT\n  n : INT;\nEND_VAR\nK := n;\nEND_FUNCTION\n\nPROGRAM P\nVAR\n  r1 : INT; r2 : INT;\nEND_VAR\nr1 := K(n := INT#4);\nr2 := K(N := INT#4);\nEND_PROGRAM\n",
+        ),
+        (
+            "mixed-positional-formal-call",
+            "FUNCTION K : INT\nVAR_INPUT\n  a : INT; b : INT;\nEND_VAR\nK := a * INT#10 + b;\nEND_FUNCTION\n\nPROGRAM P\nVAR\n  r : INT;\nEND_VAR\nr := K(INT#1, b := INT#2);\nEND_PROGRAM\n",
+        ),
+        (
+            "return-variable-case",
+            "FUNCTION Kf : INT\nVAR_INPUT\n  n : INT;\nEND_VAR\nKF := n;\nEND_FUNCTION\n\nPROGRAM P\nVAR\n  r : INT;\nEND_VAR\nr := Kf(INT#4);\nEND_PROGRAM\n",
+        ),
     ]
+}
+
+/// Findings that abort the process: replayed in a child process (`vharness c00probe`).
+pub fn child_witnesses() -> Vec<(&'static str, &'static str)> {
+    vec![(
+        "recursion-stack-overflow",
+        "FUNCTION F : DINT\nVAR_INPUT\n  n : DINT;\nEND_VAR\nIF n <= 0 THEN\n  F := 0;\nELSE\n  F := 1 + F(n - 1);\nEND_IF;\nEND_FUNCTION\n\nPROGRAM P\nVAR\n  r : DINT;\nEND_VAR\nr := F(1000000);\nEND_PROGRAM\n",
+    )]
+}
+
+fn emit_child(out: &mut Out, n: u64, id: &str, source: &str) {
+    out.line(format!("case {n}"));
+    out.line(format!("tag witness raw-{id}"));
+    out.line(format!("src {}", hex(source.as_bytes())));
+    let path = std::env::temp_dir().join(format!("vharness_c01_child_{}_{n}.st", std::process::id()));
+    let obs = match std::fs::write(&path, source) {
+        Err(e) => format!("cannot-write {e}"),
+        Ok(()) => {
+            let exe = std::env::current_exe().expect("current exe");
+            let res = std::process::Command::new(exe)
+                .args(["c00probe", "--src", path.to_str().unwrap_or(""), "--cycles", "1"])
+                .output();
+            let _ = std::fs::remove_file(&path);
+            match res {
+                Err(e) => format!("cannot-spawn {e}"),
+                Ok(o) => {
+                    use std::os::unix::process::ExitStatusExt;
+                    let first = String::from_utf8_lossy(&o.stdout).lines().next().unwrap_or("").to_string();
+                    match (o.status.code(), o.status.signal()) {
+                        (_, Some(sig)) => format!("child-killed signal={sig}"),
+                        (Some(code), None) => format!("child-exit code={code} {first}"),
+                        _ => "child-unknown".to_string(),
+                    }
+                }
+            }
+        }
+    };
+    out.line(format!("# rawobs {id} {obs}"));
+    out.line("end");
 }
 
 pub const MATRIX_BASE: u64 = 2_000_000;
@@ -1860,7 +2431,7 @@ pub fn matrix_programs() -> Vec<(String, Program)> {
         for &t2 in &types {
             out.push((
                 format!("assign-{}-{}", t1.name(), t2.name()),
-                Program { decls: vec![mk("x", t1, true), mk("y", t2, false)], body: vec![asg("x", v("y"))] },
+                Program { funcs: Vec::new(), decls: vec![mk("x", t1, true), mk("y", t2, false)], body: vec![asg("x", v("y"))] },
             ));
         }
     }
@@ -1875,6 +2446,7 @@ pub fn matrix_programs() -> Vec<(String, Program)> {
                 out.push((
                     format!("bin-{opname}-{}-{}", t1.name(), t2.name()),
                     Program {
+                        funcs: Vec::new(),
                         decls: vec![mk("l", t1, false), mk("r", t2, true), mk("z", target, true)],
                         body: vec![asg("z", bin(op, v("l"), v("r")))],
                     },
@@ -1885,11 +2457,12 @@ pub fn matrix_programs() -> Vec<(String, Program)> {
     for &t1 in &types {
         out.push((
             format!("neg-{}", t1.name()),
-            Program { decls: vec![mk("l", t1, true), mk("z", t1, true)], body: vec![asg("z", neg(v("l")))] },
+            Program { funcs: Vec::new(), decls: vec![mk("l", t1, true), mk("z", t1, true)], body: vec![asg("z", neg(v("l")))] },
         ));
         out.push((
             format!("not-{}", t1.name()),
             Program {
+                funcs: Vec::new(),
                 decls: vec![mk("l", t1, true), mk("z", Ty::Bool, true)],
                 body: vec![asg("z", Expr::Un(UnOp::Not, Box::new(v("l"))))],
             },
@@ -1900,6 +2473,7 @@ pub fn matrix_programs() -> Vec<(String, Program)> {
             out.push((
                 format!("for-{}-{}", t1.name(), t2.name()),
                 Program {
+                    funcs: Vec::new(),
                     decls: vec![
                         mk("c", t1, true),
                         VarDecl { name: "lo".into(), ty: t2, init: 1, typed_init: false, has_init: true },
@@ -1922,6 +2496,7 @@ pub fn matrix_programs() -> Vec<(String, Program)> {
             out.push((
                 format!("case-{}-{}", t1.name(), k2.name()),
                 Program {
+                    funcs: Vec::new(),
                     decls: vec![mk("s", t1, true), mk("n", Ty::Int(IKind::DInt), true)],
                     body: vec![Stmt::Case(
                         v("s"),
@@ -1958,6 +2533,7 @@ pub fn run_focus(args: &Args, focus: Focus) -> i32 {
     let cycles = args.extra_usize("cycles", 3);
     let ws = witnesses();
     let raws = raw_witnesses();
+    let children = child_witnesses();
     let run_witness = |out: &mut Out, idx: usize| {
         let n = WITNESS_BASE + idx as u64;
         if idx < ws.len() {
@@ -1967,6 +2543,9 @@ pub fn run_focus(args: &Args, focus: Focus) -> i32 {
         } else if idx - ws.len() < raws.len() {
             let (id, src) = raws[idx - ws.len()];
             emit_raw(out, n, id, src);
+        } else if idx - ws.len() - raws.len() < children.len() {
+            let (id, src) = children[idx - ws.len() - raws.len()];
+            emit_child(out, n, id, src);
         }
     };
     let matrix = matrix_programs();
@@ -1983,11 +2562,17 @@ pub fn run_focus(args: &Args, focus: Focus) -> i32 {
         }
         let mut rng = Rng::for_case(args.seed, n);
         let (profile, sabotage) = pick_profile(&mut rng, focus);
-        let (prog, sabotaged) = Gen::new(&mut rng, profile, sabotage).gen_program();
+        let s4 = rng.chance(35, 100);
+        let (prog, sabotaged) = if s4 {
+            Gen::new(&mut rng, profile, sabotage).gen_program_s4()
+        } else {
+            Gen::new(&mut rng, profile, sabotage).gen_program()
+        };
         let rate = if focus == Focus::C03 { 25 } else { 12 };
         let inputs = gen_inputs(&mut rng, &prog, cycles, rate);
-        let mut tags = format!("profile-{}", profile.name());
+        let mut tags = format!("profile-{} stage-{}", profile.name(), if s4 { "s4" } else { "s2" });
         out.count(&format!("profile-{}", profile.name()));
+        out.count(if s4 { "stage-s4" } else { "stage-s2" });
         if let Some(what) = sabotaged {
             let _ = write!(tags, " sabotaged sab-{what}");
             out.count(&format!("sab-{what}"));
@@ -1995,7 +2580,7 @@ pub fn run_focus(args: &Args, focus: Focus) -> i32 {
         emit_case(&mut out, n, &prog, &tags, inputs);
     }
     if args.only.is_none() {
-        for idx in 0..ws.len() + raws.len() {
+        for idx in 0..ws.len() + raws.len() + children.len() {
             run_witness(&mut out, idx);
         }
         for (i, (id, prog)) in matrix.iter().enumerate() {
